@@ -72,3 +72,9 @@ add('C28','model_checking','exhaustive enumeration of admission requests x appli
  'Admission decision == reference predicate, allowance derived from stake, transfer semantics field by field, pool invariant.',_chain_note)
 add('C43','model_checking','exhaustive enumeration of histories (depth 2-3) -> real ExportAppState -> fresh node InitChain in a new process -> state comparison',
  'For every enumerated history the exported state is imported by a new node and accounts, balances, supply, nodes, applications, parameters and claims are compared.',_chain_note)
+add('C29','model_checking','exhaustive enumeration of relay counts x leaf indices x hashing schemes on the real Merkle-sum-index code',
+ 'Every generated proof for every index of every tree size in the bound verifies against the generated root with ceil(log2 n) levels, through GenerateProofs and through Evidence.GenerateMerkleProof.',
+ 'Relay proofs are synthetic but hashed by the real code; n bounded (33 quick / 130 thorough).')
+add('C30','model_checking','exhaustive enumeration of single-field proof mutations and duplicated-relay multisets on the real verifier',
+ 'Every alteration of leaf, index, sibling, target, root or level count must fail; every path through a zero-width range must be (invalid, replay) according to a reference range model.',
+ 'Mutation alphabet is single-field; zero-width reference model in the harness.')
